@@ -209,6 +209,9 @@ func runC12(cx *Ctx, r *Report) {
 	cx.c12Validators(r)
 	cx.c12ValidatorAccumulators(r)
 	cx.c12MapWriteBack(r)
+	// G10: the oracle import replays values through the trimming writer, so the run-time
+	// trims must keep the store within the feed's window (rule shared with C17)
+	cx.oracleTrimRule(r, collectEvents(cx, r, "oracle", "msg", "callback"), "G10-window-kept-at-run-time")
 	if n := cx.importRebuildRule(r, mods, "G8-derived-coexecuted"); n < 4 {
 		r.toolErr("only %d record/derived pairs found in import loops (≥4 confirmed)", n)
 	}
